@@ -10,6 +10,26 @@ NOTE = ("Trusted: Coq 8.16.1 kernel (vm_compute, no native_compute); no axioms d
         "tools/gen_facts.py for tables; glibc and the file system are oracles (DESIGN.md section 8).")
 
 CLAIMS = {
+ "C08": dict(
+   text=("Theorems C08_int32/int64/uint32/uint64: for EVERY value of the type, the typed setter followed by the matching getter "
+         "returns the value (decimal printing and strtol-family parsing are modelled and proved inverse, all sizes, by induction "
+         "on digits); C08_bool for every accepted spelling in any case; C08_string. Floating point: C08_float_digits / "
+         "C08_double_digits (Flocq): printing with FLT_DECIMAL_DIG=9 / DBL_DECIMAL_DIG=17 significant digits (values and the "
+         "conversions used are regenerated from the source on every run) and reading back is the identity for all finite "
+         "numbers incl. subnormals. Partial: glibc's printf/strtod being correctly rounded is an oracle; the write/read leg is "
+         "covered by the correspondence runs (set, get, write, re-read, get), its theorem belongs to C07."),
+   technique="Coq proof (digit-list induction; Flocq rounding theorem) + generated source facts + differential correspondence",
+   ref="6 (C08)",
+   note=NOTE + " Axioms (standard library, through Flocq/Reals, only for C08_float_digits/C08_double_digits): "
+        "ClassicalDedekindReals.sig_forall_dec, sig_not_dec, FunctionalExtensionality.functional_extensionality_dep, Classical_Prop.classic."),
+ "C09": dict(
+   text=("Theorems C09_int32/int64/uint32/uint64: for every well-formed integer literal (decimal, octal, hexadecimal in either "
+         "case, optional sign, any number of digits) the getter returns the mathematical value when the type can hold it and "
+         "ECONF_VALUE_CONVERSION_ERROR otherwise; C09_bool_exact: the boolean getter succeeds exactly on 1/0/yes/no/true/false in "
+         "any case and the empty value; C09_null_value. Partial: correctly rounded strtof/strtod is glibc's contract (oracle, "
+         "checked against an exact rational model on sampled literals)."),
+   technique="Coq proof over a model of strtol/strtoul base 0 + differential correspondence with independent Python oracle",
+   ref="6 (C09)"),
  "C10": dict(
    text=("Theorems C10_readonly / C10_sequences / C10_later_results / C10_merge_inputs: in the model every query (failing ones "
          "included), any finite sequence of them, and a merge leave the object(s) unchanged, for all objects. The model is tied "
